@@ -21,6 +21,7 @@ CONSTANTS
   BugPadCredit = FALSE
   EncodeAtEnqueue = FALSE
   BugZeroCostHeld = FALSE
+  SplitOnlyAtEnqueue = FALSE
 INVARIANTS WithinGrant WithinMaxFrame NoEligibleQueued LedgerAgrees PrefixFidelity HpackInOrder
 CONSTRAINT HWM
 POSTCONDITION Accepted
